@@ -458,6 +458,7 @@ type Contract struct {
 	PureFuncs  []string // function-valued parameters / variables assumed pure (`pure f, g`)
 	ArithWrap  bool   // integer arithmetic wraps around (exact two's complement) instead of raising overflow obligations
 	FirstDefer string // the body must start with `defer <this function>(...)`
+	WritePre   map[string][]Clause // obligations at every assignment to a field of that name
 	CallPre    map[string][]Clause // emit-preconditions: callee name[.ordinal] -> clauses over the caller's variables and the callee's parameters
 	Props      []string
 }
@@ -501,7 +502,7 @@ type ContractFile struct {
 
 var clauseKW = map[string]bool{"contract": true, "extern": true, "requires": true, "ensures": true, "assigns": true,
 	"loop": true, "pred": true, "func": true, "ufunc": true, "axiom": true, "guards": true, "lockinv": true, "rely": true,
-	"chaninv": true, "ghost": true, "trusted": true, "panics": true, "props": true, "quiet": true, "pure": true, "firstdefer": true, "callpre": true, "arith": true}
+	"chaninv": true, "ghost": true, "trusted": true, "panics": true, "props": true, "quiet": true, "pure": true, "firstdefer": true, "callpre": true, "arith": true, "writepre": true}
 
 func firstWord(s string) string {
 	s = strings.TrimSpace(s)
@@ -725,6 +726,23 @@ func parseContractText(data, path, pkg string) (*ContractFile, error) {
 			if cur != nil {
 				cur.PureFuncs = append(cur.PureFuncs, strings.Fields(strings.ReplaceAll(rest, ",", " "))...)
 			}
+		case "writepre":
+			if cur == nil {
+				return nil, fail(i, fmt.Errorf("writepre outside contract"))
+			}
+			ci := strings.Index(rest, ":")
+			if ci < 0 {
+				return nil, fail(i, fmt.Errorf("writepre needs ':'"))
+			}
+			field := strings.TrimSpace(rest[:ci])
+			c, err := mkClause(rest[ci+1:])
+			if err != nil {
+				return nil, fail(i, err)
+			}
+			if cur.WritePre == nil {
+				cur.WritePre = map[string][]Clause{}
+			}
+			cur.WritePre[field] = append(cur.WritePre[field], c)
 		case "callpre":
 			// callpre callee[.n]: [@label:] expr
 			if cur == nil {
